@@ -211,13 +211,10 @@ def insert_driver(u):
                   " lemma_tree_missing_nonneg(files, w.orig, cfg, it.index@); assert(files[it.index@] == file.path@); }"
                   " let ghost w0 = *w; let ghost res0 = all_map_results@;")
     # ghost bookkeeping after the file's map: remember the first ID of a replaced file, and re-establish the tree invariants
-    s0, e0, _ = blk.find_one("if let Some(map_result) =")
-    ob = blk.mbody.index("{", e0)
-    from weave import lexer
-    cb = lexer.match_close(blk.body, ob)
-    blk.before_stmt("if let Some(map_result) =", "let ghost w_mid = *w;\n                ")
-    blk.insert_at(ob + 1, " proof { if w.fs[file.path@] != w.orig[file.path@] { record_alloc(w, file.path@, w_mid.counter); } }", "G", "record first ID of a replaced file")
-    blk.insert_at(cb, """
+    # (keyed on the map call and on the push of its result, so `if let` and `match` forms of the same code both work)
+    blk.before_stmt("ProcessorType::map(", "let ghost w_mid = *w;\n                ")
+    blk.before_stmt(".push(map_result)", "proof { if w.fs[file.path@] != w.orig[file.path@] { record_alloc(w, file.path@, w_mid.counter); } }\n                    ")
+    blk.after_stmt(".push(map_result)", """
                     proof {
                         let p = file.path@;
                         assert(all_map_results@.drop_last() == res0);
@@ -230,7 +227,7 @@ def insert_driver(u):
                             if q != p { assert(w0.intended.dom().contains(q)); }
                         }
                     }
-                """, "G", "tree invariants after one file")
+                """)
     blk.before("ProcessorType::reduce(", "proof { assert(tree_missing(files, w.orig, cfg, files.len() as int) <= u32::MAX); }\n        ")
     return f, blk
 
